@@ -107,6 +107,8 @@ def run(ctx: Ctx, env):
     vcls = sqlite[0]
     # clause 1 (+ well-formedness, placeholders, once/in-order): the C09 rule set on the SQLite dialect
     c09.run(ctx, env, only_dialect="sqlite")
+    from .c06 import check_token_actions
+    check_token_actions(ctx, env, "R0.literal-values-as-written")
     A = SqlAnalysis(env, vcls)
     vs = A.short
 
